@@ -50,6 +50,10 @@ def _resid(name, c):
         return lambda u, x, k: lap(u, x) - k * torch.sin(x[:, :1])
     if name == "u_minus_k":
         return lambda u, k: u - k * c
+    if name == "lap_kdef":      # the learnable parameter overrides a default value of the residual argument
+        return lambda u, x, k=1.0: lap(u, x) - k * torch.sin(x[:, :1])
+    if name == "u_minus_kdef":
+        return lambda u, k=0.75: u - k * c
     if name == "u_minus_f":
         return lambda u, f: u - f
     if name == "mean_sq":
